@@ -42,6 +42,9 @@ fn shape_for(base: &str, q: usize) -> Any {
     let v = q as f64;
     match base {
         "PointZ" => Any::PointZ(PointZ::new(v, 1.0, 2.0, 3.0)),
+        // no measures: every m is NO_DATA
+        "MultipointZ" => Any::MultipointZ(MultipointZ::new(vec![PointZ::new(v, 1.0, 2.0, NO_DATA), PointZ::new(v + 0.5, 2.0, 3.0, NO_DATA), PointZ::new(v, 3.0, 4.0, NO_DATA)])),
+        "PolygonM" => Any::PolygonM(PolygonM::new(PolygonRing::Outer(vec![PointM::new(v, 0.0, NO_DATA), PointM::new(v, 1.0, NO_DATA), PointM::new(v + 1.0, 1.0, NO_DATA), PointM::new(v, 0.0, NO_DATA)]))),
         "Polyline" => Any::Polyline(Polyline::new(vec![Point::new(v, 0.0), Point::new(v, 1.0 + v)])),
         _ => Any::Point(Point::new(v, 0.5)),
     }
@@ -59,6 +62,8 @@ fn shape_q(s: &Shape) -> Option<usize> {
         Shape::Point(p) => Some(p.x as usize),
         Shape::PointZ(p) => Some(p.x as usize),
         Shape::Polyline(p) => p.parts().first().and_then(|pt| pt.first()).map(|p| p.x as usize),
+        Shape::MultipointZ(p) => p.points().first().map(|p| p.x as usize),
+        Shape::PolygonM(p) => p.rings().first().and_then(|r| r.points().first()).map(|p| p.x as usize),
         _ => None,
     }
 }
@@ -506,6 +511,49 @@ pub fn oracle_c15_pairs_noshx(base: &str, n: usize, k: usize) -> Verdict {
     }
 }
 
+/// n pairs of a given shape type written through the complete Writer come back as the same pairs,
+/// from memory with and without the index
+pub fn oracle_c08_roundtrip(base: &str, n: usize) -> Verdict {
+    let good: Vec<PairOp> = (0..n).map(|_| PairOp::Good).collect();
+    let run = match run_pairs(base, &good) {
+        Ok(r) => r,
+        Err(e) => return Verdict::fail("pairs-panic", e),
+    };
+    if run.results.iter().any(|r| r != "ok") {
+        return Verdict::fail("pairs-write-refused", format!("{} {} pairs: results {:?}", n, base, run.results));
+    }
+    if counts(&run) != (n, n, n) {
+        return Verdict::fail("pairs-counts", format!("{} {} pairs written: (shp records, shx entries, dbf rows) = {:?}", n, base, counts(&run)));
+    }
+    let r = catch_unwind(AssertUnwindSafe(|| -> Result<(), String> {
+        for with in [true, false] {
+            let sr = if with { ShapeReader::with_shx(Cursor::new(run.shp.clone()), Cursor::new(run.shx.clone())) } else { ShapeReader::new(Cursor::new(run.shp.clone())) }.map_err(|e| show_err(&e))?;
+            let dr = dbase::Reader::new(Cursor::new(run.dbf.clone())).map_err(|e| format!("dbase {:?}", e))?;
+            let mut rdr = Reader::new(sr, dr);
+            let mut got = vec![];
+            for item in rdr.iter_shapes_and_records() {
+                let (s, row) = item.map_err(|e| format!("{} {} pairs written without error, reading them (index: {}) fails with {}", n, base, with, show_err(&e)))?;
+                let q = shape_q(&s).ok_or("unexpected shape")?;
+                let idx = match row.get("idx") {
+                    Some(dbase::FieldValue::Numeric(Some(v))) => *v as usize,
+                    other => return Err(format!("row without idx: {:?}", other)),
+                };
+                got.push((q, idx));
+            }
+            let want: Vec<(usize, usize)> = (0..n).map(|i| (i, i)).collect();
+            if got != want {
+                return Err(format!("{} {} pairs (index: {}): the reader returns (shape, row) = {:?}", n, base, with, got));
+            }
+        }
+        Ok(())
+    }));
+    match r {
+        Ok(Ok(())) => Verdict::pass(),
+        Ok(Err(e)) => Verdict::fail("pairs-misaligned", e),
+        Err(e) => Verdict::fail("pairs-panic", panic_msg(&e)),
+    }
+}
+
 /// replay of the scenarios above
 pub fn oracle_scenario_dbf(prop: &str, a: &[String]) -> Option<Verdict> {
     match (prop, a.first().map(|s| s.as_str())) {
@@ -666,6 +714,16 @@ pub fn cases_dbf(tier: &str, rng: &mut Rng, stats: &mut Stats, out: &mut Out) {
             let id = out.oracle_only_id();
             out.verdict(&id, &format!("scenario paged {} {} {}", base, n, k), oracle_c08_paged(base, n, k));
         }
+    }
+    for base in ["MultipointZ", "PolygonM", "PointZ", "Polyline"] {
+        for n in [1usize, 3] {
+            let id = out.oracle_only_id();
+            out.verdict(&id, &format!("scenario pairs-roundtrip {} {}", base, n), oracle_c08_roundtrip(base, n));
+        }
+    }
+    for (n, k) in [(5usize, 3usize), (4, 1)] {
+        let id = out.oracle_only_id();
+        out.verdict(&id, &format!("scenario reader-pairs-noshx Point {} {}", n, k), oracle_c15_pairs_noshx("Point", n, k));
     }
     for (a, b) in [("parcels", "parcels.v2"), ("a.b.c", "a.b"), ("roads", "roads_2024.final"), ("x", "x.shp")] {
         let id = out.oracle_only_id();
